@@ -1,7 +1,7 @@
 """C11 -- no data race in any parallel region, for any thread count or schedule (residual and smoother regions)."""
 import common as C
 
-REGIONS = ['residual_give', 'residual_take', 'smoother_give', 'smoother_take', 'ext_smoother_give', 'ext_smoother_take']
+REGIONS = ['residual_give', 'residual_take', 'direct_give_assembly', 'direct_take_assembly', 'smoother_give', 'smoother_take', 'ext_smoother_give', 'ext_smoother_take']
 # small grid shapes covering the classes the colour phases depend on (nsc mod 2,3,4; ntheta mod 3 and 4; minimal sizes)
 SEARCH_DIMS = [(nsc + 3, nt, nsc) for nt in (4, 6, 8, 10, 12, 14, 16) for nsc in (1, 2, 3, 4, 5, 6, 7)]
 STRESS = [('201', '6', '3', '2'), ('150', '10', '4', '4'), ('121', '8', '5', '3'), ('101', '12', '6', '5'), ('9', '8', '3', '16'), ('161', '16', '2', '7')]
@@ -10,7 +10,7 @@ STRESS = [('201', '6', '3', '2'), ('150', '10', '4', '4'), ('121', '8', '5', '3'
 def run(res, tier, seed):
     res.trusted_base += [
         'translator T2 (translate/t2_regions.py): loop bounds, strides, nowait clauses, loop bodies and the placement of the scratch-vector '
-        'declarations of six work-sharing regions, regenerated as ParDefs.phase lists',
+        'declarations of eight work-sharing regions (residual give/take, direct-solver assembly give/take, four smoothers), regenerated as ParDefs.phase lists',
         'hand-written footprints of the task functions (ParDefs.footprint, boxes of (array, i_r, i_theta) cells), validated by K-footprint: '
         'harness/h_footprint.cpp measures by perturbation what each real task function reads and writes and the extracted model checks containment',
         'the concurrency relation of the model: any two iterations of one omp for, and any two iterations of loops with only nowait between them, '
@@ -18,7 +18,7 @@ def run(res, tier, seed):
     ]
     res.assumptions += [
         'modelled, not verified: the OpenMP runtime implements the implicit barriers; accesses inside the per-line solver objects and the STL are as '
-        'hand-modelled (one solver object per line); regions not translated (direct-solver and smoother matrix assembly, transfer operators, level '
+        'hand-modelled (one solver object per line); regions not translated (smoother matrix assembly, transfer operators, level '
         'caches, rhs build, vector kernels, the task-based smoother variant that the library does not call) are outside this check',
         'perturbation cannot see a write that stores the value already present, nor accesses to thread-private scratch',
     ]
